@@ -272,6 +272,62 @@ fn parse_ipc(b: &[u8]) -> Result<Layout, String> {
     }
 }
 
+/// Walk the framing the way a stream reader does and return the first declared length (metadata or
+/// body) that exceeds the bytes that remain: a reader that trusts it allocates that much.
+fn declared_overrun(b: &[u8]) -> Option<u64> {
+    let mut pos = 0usize;
+    loop {
+        if pos + 4 > b.len() {
+            return None;
+        }
+        let mut mlen = i32::from_le_bytes(b[pos..pos + 4].try_into().unwrap());
+        let mut at = pos + 4;
+        if mlen == -1 {
+            if at + 4 > b.len() {
+                return None;
+            }
+            mlen = i32::from_le_bytes(b[at..at + 4].try_into().unwrap());
+            at += 4;
+        }
+        if mlen <= 0 {
+            return None;
+        }
+        let mlen = mlen as usize;
+        if at + mlen > b.len() {
+            return Some(mlen as u64);
+        }
+        let Ok(m) = arrow::ipc::root_as_message(&b[at..at + mlen]) else { return None };
+        let body = m.bodyLength();
+        if body < 0 {
+            return None;
+        }
+        if at + mlen + body as usize > b.len() || (body as u64) > (1u64 << 40) {
+            return Some(body as u64);
+        }
+        pos = at + mlen + body as usize;
+    }
+}
+
+const HEAVY_MIN: u64 = 48 << 20; // a reader that trusts such a length zeroes this much memory: seconds per case
+const HEAVY_MAX: u64 = 3 << 30; // up to here it is merely slow; beyond, up to ABORTS_FROM, it could exhaust the box
+const ABORTS_FROM: u64 = 1 << 44; // no allocator grants this: immediate allocation failure
+static HEAVY_LEFT: std::sync::atomic::AtomicI64 = std::sync::atomic::AtomicI64::new(0);
+
+/// true: run it; false: skip (too slow / too dangerous for this tier)
+fn admit(declared: Option<u64>, rec: &mut Value) -> bool {
+    let Some(d) = declared else { return true };
+    rec["overrun"] = json!(1);
+    rec["declared"] = json!(d);
+    if d < HEAVY_MIN || d >= ABORTS_FROM {
+        return true;
+    }
+    if d <= HEAVY_MAX && HEAVY_LEFT.fetch_sub(1, std::sync::atomic::Ordering::SeqCst) > 0 {
+        return true;
+    }
+    rec["skipped_heavy"] = json!(1);
+    false
+}
+
 impl Layout {
     fn rows_after(&self, off: usize) -> i64 {
         self.msgs.iter().filter(|m| m.end > off).map(|m| m.rows).sum()
@@ -529,13 +585,17 @@ impl FaultTransport {
                     }
                 };
                 rec["cls"] = json!(region);
-                rec["overrun"] = json!(if parse_ipc(&b).err().map(|e| e.contains("beyond the end")).unwrap_or(false) { 1 } else { 0 });
+                if !admit(declared_overrun(&b), rec) {
+                    return Err(exec("harness: skipped".into()));
+                }
                 Ok((b, rows, 0.0))
             }
             Fault::Garbage(v) => {
                 let (b, what) = garbage(&bytes, &lay, *v);
                 rec["cls"] = json!(what);
-                rec["overrun"] = json!(if parse_ipc(&b).err().map(|e| e.contains("beyond the end")).unwrap_or(false) { 1 } else { 0 });
+                if !admit(declared_overrun(&b), rec) {
+                    return Err(exec("harness: skipped".into()));
+                }
                 Ok((b, rows, 0.0))
             }
             Fault::DropRows => {
@@ -701,11 +761,13 @@ fn run_case(fx: &Fixture, c: &Value, side: Option<&Path>) -> Value {
         &fx.init_ok
     };
     let parts = participants(n, me);
+    let t0 = std::time::Instant::now();
     let r = catch(std::panic::AssertUnwindSafe(|| {
         fx.rt.block_on(async { tokio::time::timeout(Duration::from_secs(60), execute_any_distributed(ictx, &sql, &parts, &tr)).await })
     }));
     let full = &fx.full[key];
     rec["rows_full"] = json!(full.len());
+    rec["ms"] = json!(t0.elapsed().as_millis() as u64);
     match r {
         Err(p) => {
             rec["outcome"] = json!("panic");
@@ -732,6 +794,9 @@ fn run_case(fx: &Fixture, c: &Value, side: Option<&Path>) -> Value {
         }
     }
     let mut sends = tr.log.lock().unwrap().clone();
+    if sends.iter().any(|s| s.get("skipped_heavy").is_some()) {
+        rec["outcome"] = json!("skipped");
+    }
     sends.sort_by_key(|s| (s["t"].as_str().unwrap().to_string(), s["i"].as_u64().unwrap()));
     rec["sends"] = json!(sends);
     rec
@@ -765,6 +830,7 @@ pub fn replay(a: &[String]) -> i32 {
     let cases = read_ndjson(&a[0]);
     let mut out = Sink::create(&a[1]);
     let fx = fixture(Path::new(&a[2]));
+    HEAVY_LEFT.store(a.get(3).and_then(|s| s.parse().ok()).unwrap_or(0), std::sync::atomic::Ordering::SeqCst);
     for c in cases {
         out.begin(&c);
         let side = PathBuf::from(format!("{}.cur.sends", &a[1]));
@@ -872,11 +938,11 @@ async fn proxy_conn(mut conn: tokio::net::TcpStream, upstream: String, peer: usi
         HFault::Proxy503 => {
             let body = br#"{"error":"injected: tables are still loading"}"#;
             let head = format!("HTTP/1.1 503 Service Unavailable\r\ncontent-type: application/json\r\ncontent-length: {}\r\n\r\n", body.len());
+            rec["applied"] = json!("proxy503");
+            st.log.lock().unwrap().push(rec);
             let _ = conn.write_all(head.as_bytes()).await;
             let _ = conn.write_all(body).await;
             let _ = conn.shutdown().await;
-            rec["applied"] = json!("proxy503");
-            st.log.lock().unwrap().push(rec);
             return;
         }
         _ => {}
@@ -952,7 +1018,10 @@ async fn proxy_conn(mut conn: tokio::net::TcpStream, upstream: String, peer: usi
             outb[off] ^= 0xff;
             rec["applied"] = json!("flip");
             rec["off"] = json!(off - head_len);
-            rec["overrun"] = json!(if parse_ipc(&outb[head_len..]).err().map(|e| e.contains("beyond the end")).unwrap_or(false) { 1 } else { 0 });
+            if !admit(declared_overrun(&outb[head_len..]), &mut rec) {
+                outb = resp.clone();
+                rec["applied"] = json!("skipped");
+            }
         }
         _ => {
             rec["applied"] = json!("unresolved");
@@ -1043,6 +1112,12 @@ pub fn http(a: &[String]) -> i32 {
             tokio::spawn(proxy_loop(l, up, k, st.clone()));
         }
         let a_addr = na.address().to_string();
+        for _ in 0..2400 {
+            if na.state().tables_loaded() && nb.state().tables_loaded() && nc.state().tables_loaded() {
+                break;
+            }
+            tokio::time::sleep(Duration::from_millis(25)).await;
+        }
         let mut cur_n = 0usize;
         let t60 = Duration::from_secs(60);
         let mut full: HashMap<String, Vec<String>> = HashMap::new();
